@@ -142,6 +142,7 @@ func opE2E(c Case, r Result) {
 		for _, t := range ts.([]any) {
 			b, _ := hex.DecodeString(t.(string))
 			outs = append(outs, matchesSexp(engine.Run(cp.bc, string(b))))
+			r["matches_list"] = outs // kept up to date so that a panic leaves the results so far
 		}
 		r["matches_list"] = outs
 		return
